@@ -26,6 +26,7 @@ import FianoModel.TightenMe.ParseLemmas
 import FianoModel.TightenMe.Reparse
 import FianoModel.TightenMe.Example
 import FianoModel.TightenMe.Tie
+import FianoModel.TightenMe.CodeTie   -- T1 code-as-code tie (wp-t1x): audited as a tie module of this check
 
 namespace Fiano.TightenMe
 
